@@ -33,6 +33,34 @@ def step (t : List String) : String :=
           let c := fpmPoint m n My Mx dx efl lam fdx shx shy mask f j i
           s!"{fmtFloat c.re} {fmtFloat c.im}"
       | _, _, _, _, _, _, _ => "bad-op"
+  | "emb" :: m :: n :: m' :: n' :: rest =>
+      -- `Model.C05.embed`: the zero-pad embedding the pad-invariance theorems are about
+      match m.toNat?, n.toNat?, m'.toNat?, n'.toNat?, floats? rest with
+      | some m, some n, some m', some n', some data =>
+          if data.length ≠ 2 * m * n ∨ m' < m ∨ n' < n then "bad-op" else
+          let f := parseGrid m n data
+          fmtGrid ((Array.range m').map fun j => (Array.range n').map fun i =>
+            (embed m n m' n' (fun a b => getC f a b) j i : C))
+      | _, _, _, _, _ => "bad-op"
+  | "bab" :: m :: n :: My :: Mx :: rest =>
+      match m.toNat?, n.toNat?, My.toNat?, Mx.toNat?, floats? rest with
+      | some m, some n, some My, some Mx, some (dx :: efl :: lam :: fdx :: data) =>
+          if data.length ≠ 4 * m * n + 2 * My * Mx then "bad-op" else
+          let f := parseGrid m n (data.take (2 * m * n))
+          let mask := parseGrid My Mx ((data.drop (2 * m * n)).take (2 * My * Mx))
+          let lyot := parseGrid m n (data.drop (2 * m * n + 2 * My * Mx))
+          fmtGrid (babTable m n My Mx dx efl lam fdx lyot mask f)
+      | _, _, _, _, _ => "bad-op"
+  | "babpt" :: m :: n :: My :: Mx :: j :: i :: rest =>
+      match m.toNat?, n.toNat?, My.toNat?, Mx.toNat?, j.toNat?, i.toNat?, floats? rest with
+      | some m, some n, some My, some Mx, some j, some i, some (dx :: efl :: lam :: fdx :: data) =>
+          if data.length ≠ 4 * m * n + 2 * My * Mx then "bad-op" else
+          let f := parseGrid m n (data.take (2 * m * n))
+          let mask := parseGrid My Mx ((data.drop (2 * m * n)).take (2 * My * Mx))
+          let lyot := parseGrid m n (data.drop (2 * m * n + 2 * My * Mx))
+          let c := babPoint m n My Mx dx efl lam fdx lyot mask f j i
+          s!"{fmtFloat c.re} {fmtFloat c.im}"
+      | _, _, _, _, _, _, _ => "bad-op"
   | _ => "bad-op"
 
 def main : IO Unit := mainLoop step
